@@ -19,6 +19,8 @@
   C20.fib     what k n seed dump | bounds table nonfunc desync seeds
               the whole draw space of a small instance: `table` lists `draws:outcome;`
               for every draw list (outcome of the REAL code on a seed realising it)
+  C20.marg    what k n seed nseeds | counts   (model-free: how often each simple event happened over the seeds,
+              larger n than the fibres reach; exact binomial bounds; supporting evidence)
   C20.freq    what k n seed nseeds | counts   (supporting evidence: outcome frequencies over seeds)
 
   `sync` = `1` when one more draw from the global source equals the twin's next
@@ -115,7 +117,7 @@ def kindOf (what : String) (k n : Nat) (tr : Option T) : Option Kind :=
   | "sample" | "tips" | "tipsR" | "tipsT" =>
     some ⟨resScript (· + 1) k n,
       fun s => (dotList s).bind fun l => if validSubset k n l then some [sortNat l] else none,
-      fun d => [sortNat (reservoir k (List.range n) d)], choose n (min k n)⟩
+      fun d => [sortNat (reservoir k (List.range n) d)], chooseFast n (min k n)⟩
   | "replace" =>
     some ⟨replScript k n,
       fun s => (dotList s).bind fun l => if validSlots k n l then some [l] else none,
@@ -200,6 +202,12 @@ def handleFib (what : String) (k n : Nat) (tr : Option T) (bounds : List Nat) (t
     -- (the implementation's table is the model's: 2·4·…·(2n-4) histories, each a different topology)
     let oracle := oracle.map fun m =>
       if what == "utreeR" && agrees && proto.isNone then "class=F29-rooted-uniform-tree-not-uniform " ++ m else m
+    -- when the code did not follow the scripted draw protocol the table is still a partition of the seeds
+    -- into equally likely cells, but say first what differs
+    let oracle := oracle.map fun m =>
+      match proto with
+      | some p => "draw protocol differs (" ++ p ++ "); outcomes grouped by the scripted draws: " ++ m
+      | none => m
     -- the two models of the uniform tree (clusters / pointer level) must agree on the whole space
     let twoModels : Option String :=
       if what == "utreeU" || what == "utreeR" then
@@ -336,7 +344,7 @@ def handle (op : String) (f : List String) : Verdict :=
         else if n == 0 then [none] else (List.range n).map some
       let model := sampleCmd k repl opened items draws
       let tags := ["samplecmd", "cli", "fmt-" ++ fmt] ++ tagIf repl "replace" ++ tagIf (k < 0) "k<0" ++
-        tagIf (!opened) "nofile" ++ tagIf (bad ≥ 0) "malformed-tree" ++ tagIf (n == 0 && bad < 0) "empty-input" ++
+        tagIf (k < 0) "outside-quantifier" ++ tagIf (!opened) "nofile" ++ tagIf (bad ≥ 0) "malformed-tree" ++ tagIf (n == 0 && bad < 0) "empty-input" ++
         tagIf (model matches .ok _) "ok" ++ tagIf (model == .err) "err" ++ tagIf (model == .panic) "panic" ++
         tagIf (k ≥ 0 && k.toNat < n && k ≥ 1 && bad < 0 && opened) "nontrivial" ++
         tagIf (k.toNat ≥ n && n ≥ 1) "k>=n"
@@ -347,6 +355,11 @@ def handle (op : String) (f : List String) : Verdict :=
           else if k.toNat ≥ n then (if res == List.range n then none else some "k ≥ n: not all trees kept")
           else if validSubset k.toNat n res then none else some "not a duplicate-free choice of k trees"
         else if !res.isEmpty then some "trees were written although the command failed"
+        -- a crash on a legal sample size (k ≥ 0) violates the property whatever the model says; a negative
+        -- size is outside the property's quantifier (sizes are naturals): there the crash in `make` is only
+        -- compared with the model (tag `outside-quantifier`)
+        else if cls == "panic" && k ≥ 0 then some "the command crashed on a legal sample size"
+        else if cls == "timeout" then some "the command did not terminate"
         else none
       let tie : Option String :=
         match model with
@@ -471,6 +484,25 @@ def handle (op : String) (f : List String) : Verdict :=
             toString (all.foldl min N) ++ " max " ++ toString (all.foldl max 0) ++ " expected " ++ toString (N / kd.size)⟩
         else ⟨.pass, tags, ""⟩
     | _, _, _, _ => bad "C20.freq fields"
+  | "marg", [what, ks, ns, _seed, nseedsS, countsS] =>
+    -- model-free: the implementation alone over many seeds, events counted by the harness
+    match ks.toNat?, ns.toNat?, nseedsS.toNat?, natList countsS with
+    | some k, some n, some N, some counts =>
+      match margSpec what k n with
+      | none => bad "C20.marg kind"
+      | some (a, b, cells) =>
+        let tags := ["marg", "marg-" ++ what, "supporting-evidence", "model-free"] ++ tagIf (n > 8) "beyond-fib" ++
+          tagIf (n > 8) "nontrivial"
+        if counts.length != cells then ⟨.oracle, tags, "expected " ++ toString cells ++ " event counts, got " ++ toString counts.length⟩
+        else if counts.any (· == 0) then
+          ⟨.oracle, tags, "an event that the property gives probability " ++ toString a ++ "/" ++ toString b ++
+            " never happened on " ++ toString N ++ " seeds (event number " ++ toString (counts.idxOf 0) ++ ")"⟩
+        else if !(margOK N a b counts) then
+          ⟨.oracle, tags, "event frequencies over " ++ toString N ++ " seeds outside the exact binomial bounds for p = " ++
+            toString a ++ "/" ++ toString b ++ " (tail < 1e-12): min " ++ toString (counts.foldl min N) ++ " max " ++
+            toString (counts.foldl max 0) ++ " expected about " ++ toString (N * a / b)⟩
+        else ⟨.pass, tags, ""⟩
+    | _, _, _, _ => bad "C20.marg fields"
   | _, _ => bad ("C20: unknown op " ++ op)
 
 end Gotree.Driver.C20
